@@ -140,6 +140,13 @@ Definition timeouts_clean (o:cobs) : bool :=
       if snd r =? 2 then negb (existsb (fun e => match e with (t, f, _) => (t =? fst tr) && (f =? fst r) end) (co_log o)) else true)
     (snd tr)) (combine (map N.of_nat (seq 0 (length (co_res o)))) (co_res o)).
 
+(* ErrCloseSent is returned only after a close frame has really been written (a WriteControl
+   that timed out, or failed, must not poison the connection) *)
+Definition close_written (k:ccase) (o:cobs) : bool :=
+  existsb (fun e => match e with (t, f, _) => match call_of k t f with Some c => isclose c | None => false end end) (co_log o).
+Definition close_sent_justified (k:ccase) (o:cobs) : bool :=
+  negb (existsb (fun tr => existsb (fun r => snd r =? 1) tr) (co_res o)) || close_written k o.
+
 Definition spec (k:ccase) (obs:tape) : option (N * tape) :=
   match p_cobs obs with
   | None => Some (199, [])
@@ -147,6 +154,7 @@ Definition spec (k:ccase) (obs:tape) : option (N * tape) :=
       if negb (contiguous k None (co_log o)) then Some (150, [])        (* a frame's Writes are not contiguous *)
       else if negb (after_close k (co_log o)) then Some (151, [])       (* bytes written after a close frame *)
       else if negb (timeouts_clean o) then Some (152, [])               (* a timed-out WriteControl wrote something *)
+      else if negb (close_sent_justified k o) then Some (153, [])       (* ErrCloseSent although no close frame was written *)
       else None
   end.
 
